@@ -89,11 +89,12 @@ theorem unaCount_contig (base u : U32) : ∀ (l : List Seg) (a : Nat),
     · rw [ih (a + 1) hm.2 (by omega) (by omega) (by omega)]; omega
     · omega
 
-theorem inPre_contig (base : U32) (w : BitVec 16) (u : U32) (k : Kcp) (hc : Contig base k)
+theorem inPre_contig (base : U32) (w : BitVec 16) (u : U32) (k : Kcp) (hna : ∀ x ∈ k.snd_buf, x.acked = false)
+    (hc : Contig base k)
     (h1 : o base k.snd_una ≤ o base u) (h2 : o base u ≤ o base k.snd_nxt) (h3 : o base k.snd_nxt < 2 ^ 31) :
     (inPre true w u k).snd_una = u ∧ Contig base (inPre true w u k) ∧
     (inPre true w u k).rmt_wnd = w.setWidth 32 ∧ (inPre true w u k).snd_nxt = k.snd_nxt ∧
-    (inPre true w u k).snd_wnd = k.snd_wnd := by
+    (inPre true w u k).snd_wnd = k.snd_wnd ∧ (∀ x ∈ (inPre true w u k).snd_buf, x ∈ k.snd_buf) := by
   have hcnt := unaCount_contig base u k.snd_buf (o base k.snd_una) hc.1 h1 (by have := hc.2; omega)
     (by have := hc.2; omega)
   have hdrop : (k.snd_buf.drop (unaCount u k.snd_buf)).map (fun x => o base x.sn) =
@@ -119,8 +120,8 @@ theorem inPre_contig (base : U32) (w : BitVec 16) (u : U32) (k : Kcp) (hc : Cont
         omega
       rw [this, List.map_cons, List.range'_succ, List.cons.injEq] at hdrop
       exact o_inj base _ _ hdrop.1
-  rw [inPre_true]
-  refine ⟨hsu, ⟨?_, ?_⟩, rfl, rfl, rfl⟩
+  rw [inPre_true w u k hna]
+  refine ⟨hsu, ⟨?_, ?_⟩, rfl, rfl, rfl, fun x hx => List.mem_of_mem_drop hx⟩
   · show (k.snd_buf.drop (unaCount u k.snd_buf)).map _ = List.range' (o base (match k.snd_buf.drop (unaCount u k.snd_buf) with
       | s :: _ => s.sn | [] => k.snd_nxt)) (k.snd_buf.drop (unaCount u k.snd_buf)).length
     rw [hsu, hdrop, List.length_drop, hcnt]
@@ -131,14 +132,16 @@ theorem inPre_contig (base : U32) (w : BitVec 16) (u : U32) (k : Kcp) (hc : Cont
     omega
 
 /-- what one ACK / WASK / WINS frame leaves of the fields the window bookkeeping reads -/
-theorem inFr_win (base : U32) (st : InLoop) (fr : Frm) (hc : Contig base st.k)
+theorem inFr_win (base : U32) (st : InLoop) (fr : Frm) (hna : ∀ x ∈ st.k.snd_buf, x.acked = false)
+    (hc : Contig base st.k)
     (h1 : o base st.k.snd_una ≤ o base fr.una) (h3 : o base st.k.snd_nxt < 2 ^ 31)
     (hf : AckLike base st.k.snd_nxt fr) :
     (inFr true st fr).k.snd_una = fr.una ∧ Contig base (inFr true st fr).k ∧
     (inFr true st fr).k.rmt_wnd = fr.wnd.setWidth 32 ∧ (inFr true st fr).k.snd_nxt = st.k.snd_nxt ∧
-    (inFr true st fr).k.snd_wnd = st.k.snd_wnd ∧ (inFr true st fr).panic = st.panic := by
+    (inFr true st fr).k.snd_wnd = st.k.snd_wnd ∧ (inFr true st fr).panic = st.panic ∧
+    (∀ x ∈ (inFr true st fr).k.snd_buf, x ∈ st.k.snd_buf) := by
   obtain ⟨hcmd, hu, hack⟩ := hf
-  obtain ⟨p1, p2, p3, p4, p5⟩ := inPre_contig base fr.wnd fr.una st.k hc h1 hu h3
+  obtain ⟨p1, p2, p3, p4, p5, p6⟩ := inPre_contig base fr.wnd fr.una st.k hna hc h1 hu h3
   have hK : (inFr true st fr).k = inPre true fr.wnd fr.una st.k ∨
       ∃ pr, (inFr true st fr).k = { inPre true fr.wnd fr.una st.k with probe := pr } := by
     unfold inFr
@@ -147,7 +150,7 @@ theorem inFr_win (base : U32) (st : InLoop) (fr : Frm) (hc : Contig base st.k)
     · rw [if_pos hA]
       have hno := ack_noop base (inPre true fr.wnd fr.una st.k) fr.sn fr.ts
         (by rw [p1]; exact hack hA) (by rw [p1]; omega)
-      rw [hno.1, hno.2]
+      rw [hno.1, inPre_shrunk, hno.2]
       exact Or.inl rfl
     · rw [if_neg hA]
       have hP : ¬ fr.cmd.toNat = IKCP_CMD_PUSH := by
@@ -167,11 +170,12 @@ theorem inFr_win (base : U32) (st : InLoop) (fr : Frm) (hc : Contig base st.k)
       rw [if_neg hP]
       split <;> rfl
   rcases hK with hK | ⟨pr, hK⟩
-  · rw [hK]; exact ⟨p1, p2, p3, p4, p5, hpan⟩
-  · rw [hK]; exact ⟨p1, p2, p3, p4, p5, hpan⟩
+  · rw [hK]; exact ⟨p1, p2, p3, p4, p5, hpan, p6⟩
+  · rw [hK]; exact ⟨p1, p2, p3, p4, p5, hpan, p6⟩
 
 /-- a non-empty datagram whose frames all carry the same `(una, wnd)` -/
-theorem inFrs_win (base u : U32) (w : BitVec 16) (frs : List Frm) : ∀ (st : InLoop), frs ≠ [] → Contig base st.k →
+theorem inFrs_win (base u : U32) (w : BitVec 16) (frs : List Frm) : ∀ (st : InLoop), frs ≠ [] →
+    (∀ x ∈ st.k.snd_buf, x.acked = false) → Contig base st.k →
     o base st.k.snd_una ≤ o base u → o base st.k.snd_nxt < 2 ^ 31 → st.panic = false →
     (∀ fr ∈ frs, AckLike base st.k.snd_nxt fr ∧ fr.una = u ∧ fr.wnd = w) →
     (inFrs true frs st).k.snd_una = u ∧ Contig base (inFrs true frs st).k ∧
@@ -180,9 +184,9 @@ theorem inFrs_win (base u : U32) (w : BitVec 16) (frs : List Frm) : ∀ (st : In
   induction frs with
   | nil => intro st h; exact absurd rfl h
   | cons fr rest ih =>
-    intro st _ hc h1 h3 hp hall
+    intro st _ hna hc h1 h3 hp hall
     obtain ⟨ha, hu, hw⟩ := hall fr (List.mem_cons_self ..)
-    obtain ⟨q1, q2, q3, q4, q5, q6⟩ := inFr_win base st fr hc (by rw [hu]; exact h1) h3 ha
+    obtain ⟨q1, q2, q3, q4, q5, q6, q7⟩ := inFr_win base st fr hna hc (by rw [hu]; exact h1) h3 ha
     unfold inFrs
     rw [if_neg (by rw [q6, hp]; simp)]
     cases rest with
@@ -190,7 +194,8 @@ theorem inFrs_win (base u : U32) (w : BitVec 16) (frs : List Frm) : ∀ (st : In
       unfold inFrs
       exact ⟨by rw [q1, hu], q2, by rw [q3, hw], q4, q5⟩
     | cons f2 r2 =>
-      obtain ⟨r1, r2', r3, r4, r5⟩ := ih (inFr true st fr) (by simp) q2 (by rw [q1, hu]; exact Nat.le_refl _)
+      obtain ⟨r1, r2', r3, r4, r5⟩ := ih (inFr true st fr) (by simp) (fun x hx => hna x (q7 x hx)) q2
+        (by rw [q1, hu]; exact Nat.le_refl _)
         (by rw [q4]; exact h3) (by rw [q6]; exact hp)
         (fun x hx => by rw [q4]; exact hall x (List.mem_cons_of_mem _ hx))
       exact ⟨r1, r2', r3, by rw [r4, q4], by rw [r5, q5]⟩
